@@ -186,7 +186,7 @@ func runC33(ctx *ev.Ctx, c c33Case) {
 					m.phase[key] = 3
 				}
 			}
-			cons, _, nCons := e.pool().consensus()
+			cons, _, nCons := e.validators()
 			sr := e.exec(op)
 			what := fmt.Sprintf("step %d %s(%s) by account %d", step, op.K, short(sr.t.req), mod(op.A, len(e.actors)))
 			// "took effect" = the contract said so, OR the quorum of the statement of C32 was reached by this accepted
